@@ -37,7 +37,7 @@ ASSUMPTIONS = [
     "one fault per execution",
 ]
 PROBES = ("fault_in_source", "fault_in_callable", "fault_at_eos_check", "fault_in_async_party",
-          "fault_in_sync_party", "fault_after_items_delivered")
+          "fault_in_sync_party", "fault_after_items_delivered", "second_fault_reached_first")
 NAMES = TOOL_NAMES + AGG_NAMES
 
 
@@ -65,10 +65,16 @@ def prepare(ch):
 
 def fault_lists(prep, faults):
     out = []
-    for k in range(len(prep.uses)):
-        out.append([k, faults.draw(len(FAULT_TYPES))])
+    n = len(prep.uses)
+    for k in range(n):
+        out.append([k, faults.draw(len(FAULT_TYPES)), 0, 0])
+    # two parties prepared to fail in one run (of different exception types): whichever the stdlib reaches first
+    # must be the one the consumer of the async twin gets as well
+    for _ in range(0 if prep.is_agg else min(3, n * (n - 1) // 2)):
+        k = faults.draw(n)
+        out.append([k, faults.draw(len(FAULT_TYPES)), 1 + faults.draw(n), faults.draw(len(FAULT_TYPES))])
     if not out:
-        out.append([0, 0])
+        out.append([0, 0, 0, 0])
     return out
 
 
@@ -79,7 +85,7 @@ def run_prepared(prep, st, ctx):
     uses = prep.uses
     sim = new_sim(st, interrupts=False)
     set_interrupts(sim, (0, 0, 5, 2)[prep.interrupt])
-    fault = None
+    fault = fault2 = None
     if uses:
         k = st.faults.draw(len(uses))
         kind = st.faults.draw(len(FAULT_TYPES))
@@ -87,7 +93,17 @@ def run_prepared(prep, st, ctx):
         exc = make_fault(kind, "fault@%d" % k)
         fault = (party, idx, exc)
         out.fault_free = False
+        k2 = st.faults.draw(len(uses) + 1)
+        kind2 = st.faults.draw(len(FAULT_TYPES))
+        # only for iterators: their order of uses equals the stdlib's (C05); aggregations may legitimately order
+        # pulls and key calls differently (sorted collects first), so "which fault comes first" is not defined there
+        if k2 and k2 - 1 != k and not prep.is_agg:
+            if FAULT_TYPES[kind2 % len(FAULT_TYPES)] is FAULT_TYPES[kind % len(FAULT_TYPES)]:
+                kind2 += 1
+            party2, idx2 = uses[k2 - 1]
+            fault2 = (party2, idx2, make_fault(kind2, "second-fault@%d" % (k2 - 1)))
     world = World(sim, own_log=True)
+    world.fault2 = fault2
     if fault:
         world.set_fault(*fault)
     run = Run(world)
@@ -97,7 +113,12 @@ def run_prepared(prep, st, ctx):
         sim.spawn(drive_tool(spec, run, prep.steps, close=True))
     run_sim(sim)
     if not (sim.capped or sim.deadlock):
-        ref = ref_agg(spec, fault) if prep.is_agg else ref_tool(spec, prep.steps, fault)
+        ref = ref_agg(spec, fault, fault2) if prep.is_agg else ref_tool(spec, prep.steps, fault, fault2)
+        if fault2 is not None and ref.exc is fault2[2]:
+            fault, fault2 = fault2, fault  # the one the stdlib ran into is "the" fault below
+            out.probes["second_fault_reached_first"] = 1
+        if fault2 is not None:
+            out.faults["two_parties_prepared_to_fail"] = 1
         pkind = "source" if fault and fault[0] in world.sources else "callable"
         if run.end is None:
             out.violate("C06.did_not_finish", (tool,), {"scenario": spec.describe()})
@@ -120,6 +141,17 @@ def run_prepared(prep, st, ctx):
             if world.use_after_fault:
                 out.violate("C06.used_after_failure", (tool, pkind),
                             {"party": world.use_after_fault, "scenario": spec.describe()})
+            else:
+                # once the failure is on its way to the consumer nobody is advanced, called or thrown into any more
+                # (closing is not a use): the stdlib counterpart touches nothing after the failure either
+                at = next((i for i, e in enumerate(run.log)
+                           if e[0] in ("raise", "craise") and e[1] == fault[0] and e[2] == fault[1]), None)
+                if at is not None:
+                    later = [e for e in run.log[at + 1:] if e[0] in ("pull", "call", "thrown_into", "asend", "athrow")]
+                    if later:
+                        out.violate("C06.other_party_used_after_failure", (tool, pkind, later[0][0]),
+                                    {"fault": repr(fault[:2]), "later_uses": [repr(e) for e in later][:6],
+                                     "scenario": spec.describe()})
             out.nontrivial = True
             out.faults["raise_in_" + pkind] = 1
             out.probes["fault_in_" + pkind] = 1
@@ -128,7 +160,7 @@ def run_prepared(prep, st, ctx):
                 if fault[1] >= len(src.items):
                     out.probes["fault_at_eos_check"] = 1
                 flav = src.plan.flavour
-                out.probes["fault_in_async_party" if flav not in ("sync_iter", "getitem") else "fault_in_sync_party"] = 1
+                out.probes["fault_in_async_party" if flav not in ("sync_iter", "getitem", "seq_abc", "set_abc") else "fault_in_sync_party"] = 1
             else:
                 flav = world.fns[fault[0]].plan.flavour
                 out.probes["fault_in_async_party" if flav != "def" else "fault_in_sync_party"] = 1
@@ -143,11 +175,12 @@ def run_prepared(prep, st, ctx):
                              "fault": repr(fault[:2]) if fault else None, "scenario": spec.describe()})
     if sim.deadlock:
         out.violate("C06.deadlock", (tool,), {})
-    out.shape = (spec.shape_key(), fault[:2] if fault else None)
+    out.shape = (spec.shape_key(), fault[:2] if fault else None, fault2[:2] if fault2 else None)
     if ctx.want_sample:
         out.sample = {"config": prep.cfg.describe(), "spec": spec.describe(), "steps": prep.steps,
                       "use_sequence": [list(u) for u in uses],
                       "fault": [fault[0], fault[1], repr(fault[2])] if fault else None,
+                      "second_fault": [fault2[0], fault2[1], repr(fault2[2])] if fault2 else None,
                       "async_result": [repr(e) for e in project_values(run.log)][:12]}
     if ctx.want_log:
         out.log = [run.log, sim.trace]
